@@ -35,7 +35,9 @@ MANIFEST = dict(
          "the real code built through config.Decode and the registered constructors, and TLC compares every cell "
          "with the specification's Expected/Hist and demands nil results, ok=false on every consumer, a closed sink "
          "after cancel and a successful engine run.",
-    note="Bounds: entries 1..3 (rings with weights up to 6:3:3 in the thorough tier), limit 0..4, passes 0..3, "
+    note="Every cell runs on afero.MemMapFs and on afero.OsFs (real files in the check's scratch dir; double Close, "
+         "descriptor leaks, real Seek/Read), with rotating file layouts (no final newline, 5 KB padding per entry, relative "
+         "path). Bounds: entries 1..3 (rings with weights up to 6:3:3 in the thorough tier), limit 0..4, passes 0..3, "
          "consumers 1..3, cut after 1 item or after 2E+3. Hang rule: no progress for 5 s (normal: microseconds), "
          "confirmed by a second run. Well-formed files only; the renderers and the projection "
          "(harness/cmd/vdrive/ammoprov_render.go) are trusted. Buffered sinks are abstracted to capacity 1-2 in "
@@ -88,13 +90,13 @@ def cell_sig(o):
     lim = "limit>0" if o["limit"] else "limit=0"
     pas = "passes>0" if o["passes"] else "passes=0"
     cut = " cut" if o["cut"] > 0 else (" precancel" if o["cut"] < 0 else "")
-    return "provider=%s mode=%s %s %s%s" % (o["kind"], mode, lim, pas, cut)
+    return "provider=%s mode=%s %s %s%s fs=%s" % (o["kind"], mode, lim, pas, cut, o["fs"])
 
 
 def describe(o, inv):
-    base = "cell kind=%s preload=%s limit=%d passes=%d w=%s consumers=%d cut=%d (config: %s, %s shape): " % (
+    base = "cell kind=%s preload=%s limit=%d passes=%d w=%s consumers=%d cut=%d (config: %s, %s shape; fs=%s, file layout %s): " % (
         o["kind"], o["preload"], o["limit"], o["passes"], o["w"] if len(o["w"]) < 8 else "%d x 1" % len(o["w"]), o["nc"],
-        o["cut"], o["via"], o["shape"])
+        o["cut"], o["via"], o["shape"], o["fs"], o["layout"])
     if o.get("build_err"):
         return base + "provider could not be built: %s" % o["build_err"]
     if inv in ("Delivered", "Order"):
@@ -107,6 +109,9 @@ def describe(o, inv):
     if inv == "EndOfAmmo":
         return base + "%d of %d consumers observed ok=false; after cancel: drained %d, sink closed: %s" % (
             o["eofs"], o["nc"], o["drained"], o["eof_after"])
+    if inv == "NoFdLeak":
+        return base + "the driver process held %d open descriptors before its first cell and %d after this one" % (
+            o["fds0"], o["fds"])
     if inv == "EngineOK":
         return base + "engine run: returned=%s result=%s (%r) shots=%d Wait returned=%s" % (
             o["eng_ret"], o["eng_class"], o["eng_err"], o["eng_shots"], o["eng_wait"])
@@ -135,7 +140,7 @@ def judge(v, tr, rows):
         o = rows[ln - 1]
         bad_cells.add(o["id"])
         v.violation("%s inv=%s" % (cell_sig(o), inv), describe(o, inv),
-                    replay_obj={"invariant": inv, "observed": o}, replay_name="cell_%d_%s.json" % (o["id"], inv))
+                    replay_obj={"invariant": inv, "observed": o}, replay_name="cell_%d_%s_%s.json" % (o["id"], o["fs"], inv))
     return bad_cells
 
 
@@ -193,7 +198,10 @@ def run(tier, v):
     if not os.path.exists(b):       # scratch dirs live in the shared /tmp: somebody else's cleanup may have taken it
         vlib._built.clear()
         b = vlib.harness_build()
-    vlib.run_driver(b, ["ammoprov", "-cases", cpath, "-out", opath, "-hang", "5s", "-par", "6"], timeout=2400)
+    osdir = os.path.join(d, "osfs")      # real files of the OsFs runs: under the check's scratch dir, removed with it
+    os.makedirs(osdir)
+    vlib.run_driver(b, ["ammoprov", "-cases", cpath, "-out", opath, "-hang", "5s", "-par", "6", "-osdir", osdir],
+                    timeout=2400)
     drv_wall = time.time() - t0
     rows = vlib.read_ndjson(opath)
     # 3. M1: TLC compares cell by cell; the recorded cells must be exactly the tier's table (+ the random cells)
@@ -205,10 +213,10 @@ def run(tier, v):
     if skipped and not bad:
         raise vlib.MachineryError("%d cells skipped without a blocked cell" % len(skipped))
     kinds = sorted({(o["kind"], o["preload"]) for o in rows})
-    nontrivial = len({(o["kind"], o["preload"], o["limit"], o["passes"], tuple(o["w"]), o["nc"], o["cut"])
+    nontrivial = len({(o["kind"], o["preload"], o["limit"], o["passes"], tuple(o["w"]), o["nc"], o["cut"], o["fs"])
                       for o in rows if not o["skipped"] and (o["limit"] or o["passes"] or o["cut"])})
     def brief(o):
-        return {k: o[k] for k in ("kind", "preload", "limit", "passes", "nc", "cut", "shape", "via", "count", "eofs",
+        return {k: o[k] for k in ("kind", "preload", "limit", "passes", "nc", "cut", "shape", "via", "fs", "layout", "count", "eofs",
                                   "run_class", "cancelled", "drained", "eof_after", "ret_us", "eng_class", "eng_shots")} \
             | {"w": o["w"] if len(o["w"]) < 8 else "%d x 1" % len(o["w"]),
                "hist": o["hist"] if len(o["hist"]) < 8 else o["hist"][:4] + ["..."]}
@@ -246,6 +254,9 @@ def run(tier, v):
         "second_attempts": sum(1 for o in rows if o["attempts"] > 1 or o["eng_attempts"] > 1),
         "return_after_cancel_us_median_max": [ret[len(ret) // 2], ret[-1]] if ret else [],
         "config_routes": sorted({o["via"] + "/" + o["shape"] for o in rows}),
+        "file_systems": sorted({o["fs"] for o in rows}),
+        "file_layouts": sorted({o["layout"] for o in rows}),
+        "max_open_fds_over_baseline": max(o["fds"] - o["fds0"] for o in rows),
         "trace_spec_states": tr.distinct,
         "driver_wall_s": round(drv_wall, 1),
         "negative_controls": negs,
@@ -253,6 +264,7 @@ def run(tier, v):
     }
     return "model_checking", cov, [
         "well-formed ammo files only; renderers/projection in harness/cmd/vdrive/ammoprov_render.go are trusted",
+        "descriptor-leak check needs /proc/self/fd (vacuous elsewhere); one-sided with slack 16",
         "hang rule: no progress for 5 s on two consecutive attempts = blocked/spinning",
         "model abstractions: buffered sinks have capacity 1-2, Go's select is boundedly unfair (MaxSkip)",
     ]
@@ -266,7 +278,9 @@ def replay(path, v):
     d = vlib.scratch()
     cpath, opath = os.path.join(d, "cases.ndjson"), os.path.join(d, "obs.ndjson")
     vlib.write_ndjson(cpath, [case])
-    vlib.run_driver(b, ["ammoprov", "-cases", cpath, "-out", opath, "-hang", "5s"], timeout=300)
+    osdir = os.path.join(d, "osfs")
+    os.makedirs(osdir)
+    vlib.run_driver(b, ["ammoprov", "-cases", cpath, "-out", opath, "-hang", "5s", "-osdir", osdir], timeout=300)
     rows = vlib.read_ndjson(opath)
     cfg = "TraceAmmoProvider_replay.cfg"   # no matrix membership for a single replayed cell
     tr = trace_tlc(opath, cfg, 600, 1)
@@ -275,6 +289,7 @@ def replay(path, v):
     for inv, st in tr.all_violations:
         if inv in ("Complete", "InMatrix") or int(st.get("l", "0")) < 1:
             continue
-        print("replayed cell violates %s: %s" % (inv, describe(rows[0], inv)))
-        v.violation("%s inv=%s" % (cell_sig(rows[0]), inv), describe(rows[0], inv))
+        o_ = rows[int(st.get("l", "1")) - 1]
+        print("replayed cell violates %s: %s" % (inv, describe(o_, inv)))
+        v.violation("%s inv=%s" % (cell_sig(o_), inv), describe(o_, inv))
     return None
